@@ -22,7 +22,7 @@ pub fn prop() -> HistProp {
         run_cfg: rc,
         gen_cfg: gc,
         nontrivial,
-        quick_cases: 5000,
+        quick_cases: 10000,
         thorough_cases: 80000,
         pressure_cases: (2000, 30000),
         assumptions: vec!["a handle that is dropped or replaced may write back its own directory entry (its parent directory is in scope)"],
